@@ -112,3 +112,42 @@ func Faults() {
 	vx.Assert("C12.zeroed_before_unlock", vx.MemWipedBeforeRelease())
 	vx.Reach("C12.end")
 }
+
+// ConcurrentFaults: a reader is inside its callback while a Close is pending, and one memory primitive fails
+// (for instance the re-protection when the last reader leaves). Whatever fails, nobody is left waiting forever: the
+// reader's call and the pending Close both return, a Close that reported success has really released the pages, a
+// failed one can be retried, and secret bytes are zero before their pages are unlocked or freed.
+func ConcurrentFaults() {
+	impl := vx.Choice("impl", 2)
+	f := factory(impl)
+	orig := vx.Bytes("secret", 2)
+	keep := append([]byte(nil), orig...)
+	s, err := f.New(orig)
+	vx.Assert("C12.cf_new_ok", err == nil)
+	budget(vx.Param("faults"))
+	done := make(chan int, 2)
+	var closeErr error
+	go func() {
+		s.WithBytes(func(b []byte) error {
+			vx.Assert("C12.cf_reader_sees_original", vx.BytesEq(b, keep))
+			vx.Yield()
+			return nil
+		})
+		done <- 1
+	}()
+	go func() {
+		closeErr = s.Close()
+		done <- 1
+	}()
+	<-done
+	<-done // a deadlock here (a Close never woken) is reported by the scheduler model
+	budget(0)
+	if closeErr != nil {
+		vx.Reach("C12.cf_close_failed")
+		vx.Assert("C12.cf_failed_close_can_be_retried", s.Close() == nil)
+	}
+	freeFailed := vx.Faulted("memcall", "free") > 0
+	vx.Assert("C12.cf_gone_after_close", vx.MemStateOf(0)&mapped == 0 || freeFailed)
+	vx.Assert("C12.cf_zeroed_before_unlock", vx.MemWipedBeforeRelease())
+	vx.Reach("C12.cf_end")
+}
